@@ -2240,6 +2240,20 @@ impl ArrayDataBuilder {
             skip_validation,
         } = self;
 
+        // check the size of `null_bit_buffer` first: constructing the
+        // `BooleanBuffer` below panics if it is too short
+        if let (None, Some(buffer)) = (&nulls, &null_bit_buffer) {
+            let len_plus_offset = checked_len_plus_offset(&data_type, len, offset)?;
+            let needed_len = bit_util::ceil(len_plus_offset, 8);
+            if buffer.len() < needed_len {
+                return Err(ArrowError::InvalidArgumentError(format!(
+                    "null_bit_buffer size too small. got {} needed {}",
+                    buffer.len(),
+                    needed_len
+                )));
+            }
+        }
+
         let nulls = nulls
             .or_else(|| {
                 let buffer = null_bit_buffer?;
